@@ -749,12 +749,30 @@ def rule_init(fx, rep):
     if not good:
         ok = False
         rep.violation("C03-INIT", "C03-INIT/seed", "zobrist::init is not seeded by a single constant seed_from_u64", {"fn": init.name, "file": init.file, "line": init.line})
-    rep.rule("C03-INIT", n, 6, ok, "component statics written only in zobrist::init; constant seed")
+    # every word of every table is drawn: the filling loops run over the whole dimension. A range whose exclusive end is the
+    # *index of the last variant* (`File::A.idx()..File::H.idx()`) leaves the last word 0 - a component that is neither
+    # non-zero nor distinct from "nothing there"
+    for bb, j, st in init.stmts():
+        rv = st.get("rv")
+        if not (st["k"] == "assign" and rv and rv["k"] == "agg" and str(rv.get("adt", "")).endswith("Range") and len(rv.get("ops", [])) == 2):
+            continue
+        hi = deep_strip(init.expr(rv["ops"][1], expand_named=True, at=bb))
+        n += 1
+        last_idx = isinstance(hi, tuple) and hi and hi[0] == "call" and isinstance(hi[1], str) and hi[1].split("::")[-1] in ("idx", "array_idx") and hi[2] and \
+            isinstance(deep_strip(hi[2][0]), tuple) and deep_strip(hi[2][0])[0] == "agg" and not deep_strip(hi[2][0])[2]
+        rep.obligation(not last_idx)
+        if last_idx:
+            ok = False
+            rep.violation("C03-INIT", "C03-INIT/range", f"zobrist::init fills a table over a range that ends (exclusively) at `{show(hi)[:60]}`, the index of an enum variant: the word of that last "
+                          "variant is never drawn and stays 0, so that component contributes nothing to the key", {"fn": init.name, "file": init.file, "line": st.get("line")})
+    rep.rule("C03-INIT", n, 6, ok, "component statics written only in zobrist::init; constant seed; filling ranges cover the tables")
 
 
 G = "src/chess/game.rs"
 Z = "src/chess/zobrist.rs"
 MUTANTS = [
+    {"name": "en-passant words per file, filled over A.idx()..H.idx() (seed C03-12a)", "expect": "C03-INIT/range",
+     "edits": __import__("shared_mutants").edits_from_patch("seeded/C03-12a/patch.diff")},
     {"name": "take-back of castling moves the rook through the Game helpers after the key was restored (seed C03-7a)", "expect": "C03-PAIR/wholesale/Game::undo_move",
      "edits": [(G, "                self.board.remove_at(rook_to);\n                self.board\n                    .set_at(rook_from, Piece::new(player, PieceKind::Rook));", "                let rook = self.remove_at(rook_to);\n                self.set_at(rook_from, rook);")]},
     {"name": "benign: set_en_passant returns early when the target does not change", "benign": True,
